@@ -308,7 +308,9 @@ func runC09(c *Ctx) {
 
 	// on one in-memory envelope, in this order: the signer's key first, then the
 	// impostor presenting the same key id
-	keySets := [][]int{{0}, {3}, {1}, {4}, {2}, {0, 1}, {3, 1}, {0, 4}, {}}
+	// (-1 stands for a key that is not there: a nil *dsig.PublicKey, as a key-store
+	// lookup that found nothing hands over; it verifies nothing)
+	keySets := [][]int{{0}, {3}, {1}, {4}, {2}, {0, 1}, {3, 1}, {0, 4}, {}, {-1}}
 	c.Parallel(len(cases), func(i int) {
 		cs := cases[i]
 		cur := headOf(cs.envRaw)
@@ -338,6 +340,10 @@ func runC09(c *Ctx) {
 			// (L) library
 			var pks []*dsig.PublicKey
 			for _, k := range ks {
+				if k < 0 {
+					pks = append(pks, nil)
+					continue
+				}
 				pks = append(pks, pubs[k])
 			}
 			var lerr error
@@ -347,7 +353,7 @@ func runC09(c *Ctx) {
 			if refMismatch && valid && p == nil && lerr == nil {
 				c09judge(c, cs, "library-validate+verify", ks, false, true, "the header digest is not the reference digest of the document, yet Validate and Verify both pass")
 			}
-			if len(ks) != 1 {
+			if len(ks) != 1 || ks[0] < 0 {
 				continue
 			}
 			wantCLI := want && valid && !refMismatch
